@@ -8,10 +8,20 @@ let handler r =
   | "householder" -> let m = table r in put_mat (householder fops m)
   | "qr" -> let m = table r in put_res (fun (q, rr) -> put_mat q; put_mat rr) (qr_decomposition fops m)
   | "eigenvalues" -> let m = table r in put_res put_fl (eigenvalues fops m)
-  | "eigensystem" | "eigenvectors" as op -> let m = table r in
-      put_res (fun ps ->
-          if op = "eigensystem" then put_fl (List.map fst ps);
-          put_i (List.length ps); List.iter (fun (_, v) -> put_fl v) ps) (eigensystem fops m)
+  | "eigensystem" -> let m = table r in
+      put_res (fun ps -> put_fl (List.map fst ps); put_i (List.length ps); List.iter (fun (_, v) -> put_fl v) ps) (eigensystem fops m)
+  | "eigenvectors" -> let m = table r in
+      put_res (fun vs -> put_i (List.length vs); List.iter put_fl vs) (eigenvectors fops m)
+  | "scalars" -> let m = table r in
+      (match m with
+       | [[x; y]] -> put_i (int_of_z (sign_int fops x)); put_i (int_of_z (sign_int fops y)); put_f (sign_xy fops x y); put_f (sign_xy fops y x);
+                     put_f (relative_difference fops x y)
+       | _ -> put_w "MODELERR scalars_shape")
+  | "trace" -> let m = table r in put_res put_f (mtrace fops m)
+  | "detg" -> let m = table r in put_res put_f (determinant_g fops m)
+  | "invertible" -> let m = table r in put_b (invertible fops m)
+  | "invg" -> let m = table r in put_res put_mat (inverse_g fops m)
+  | "householder_steps" -> let m = table r in put_mat (householder_steps fops m)
   | "history" -> let m = table r in
       (* the model is a pure function of the matrix: every call of the sequence sees the same argument *)
       (match eigensystem fops m, eigenvalues fops m, qr_decomposition fops m with
